@@ -88,6 +88,12 @@ def run_case(rng, tier, case):
         a['max_take'] = {'start': [str((pd.Timestamp(g['start']) - pd.Timedelta(days=3)).normalize() + pd.Timedelta(hours=12))],
                          'end': [str((pd.Timestamp(g['end']) + pd.Timedelta(days=3)).normalize() + pd.Timedelta(hours=12))], 'values': [float('inf')]}
         case.feature('unlimited_take_inf')
+    if g['tz'] in ('Europe/Berlin', 'America/New_York', 'Asia/Kolkata') and not g.get('x_zone_in_dates') and rng.random() < 0.25:
+        # dates given as python datetimes with a standard-library zone (zoneinfo) instead of a pandas / pytz zone
+        for a in spec['assets']:
+            if a.get('_date_form') in ('aware_utc', 'aware_other') or (a.get('_date_form', 'datetime') in ('datetime', 'timestamp') and '_container' not in a and rng.random() < 0.5):
+                a['_date_form'] = 'aware_zoneinfo'
+        case.feature('dates_with_zoneinfo_zone')
     for t in gen.asset_types(spec):
         case.feature('type:' + t)
     own_grid = rng.random() < 0.6
